@@ -580,6 +580,9 @@ func (p *Program) heapSortByName(h string) *smt.Sort {
 		if g, ok := p.Ghosts[n]; ok {
 			return g.Sort
 		}
+		if strings.HasPrefix(n, "atomic:") {
+			return heapSort(smt.Bool)
+		}
 		switch n {
 		case "statever", "nextsnap":
 			return smt.BV(64)
